@@ -415,3 +415,179 @@ Section Block.
     | e => e
     end.
 End Block.
+
+(* ====================================================================== validation against the chain state *)
+
+(** kai/state/cstate/validation.go [validateBlock] and the checks of types/validator_set.go
+    [VerifyCommit] that do not involve signatures, transcribed check by check in the order of the code.
+    What is NOT modelled enters as an input ([vext]): the outcome of VerifyCommit's signature/tally loop
+    (C02), cstate.MedianTime of the last commit, membership of the proposer in the validator set and
+    the verdict of the evidence pool. *)
+
+Record vstate := {
+  st_initial : N;            (* InitialHeight *)
+  st_last_height : N;        (* LastBlockHeight *)
+  st_last_bid : blockid;     (* LastBlockID *)
+  st_app : bytes;            (* AppHash *)
+  st_valhash : bytes;        (* Validators.Hash() *)
+  st_nextvalhash : bytes;    (* NextValidators.Hash() *)
+  st_lastvals_size : N;      (* LastValidators.Size() *)
+  st_last_time : timestamp;  (* LastBlockTime *)
+  st_max_evidence : Z        (* MaxEvidencePerBlock(ConsensusParams.Block.MaxBytes), an int64 *)
+}.
+
+Record vext := {
+  x_sigs_ok : bool;          (* every present signature verifies and more than 2/3 of the power is for the block *)
+  x_median : timestamp;      (* MedianTime(block.LastCommit, state.LastValidators) *)
+  x_proposer_known : bool;   (* state.Validators.HasAddress(proposer) *)
+  x_evpool_ok : bool         (* evidencePool.CheckEvidence == nil *)
+}.
+
+Inductive vc_class := VcBasic (c : vb_class) | VcSize | VcHeight | VcBlockID | VcSigs | VcOk.
+
+Inductive vs_class :=
+  | VsBasic (c : vb_class) | VsHeight | VsLastBlockID | VsAppHash | VsValHash | VsNextValHash
+  | VsNilLastCommit | VsInitialSigs | VsCommit (c : vc_class) | VsTimeNotAfter | VsTimeMedian
+  | VsTimeGenesis | VsBelowInitial | VsEvidenceOverflow | VsProposer | VsEvidencePool | VsOk.
+
+(** [PartSetHeader.Equals], [BlockID.Equal] *)
+Definition psheader_eqb (a b : psheader) : bool :=
+  (N.eqb (psh_total a) (psh_total b) && bytes_eqb (psh_hash a) (psh_hash b))%bool.
+Definition blockid_eqb (a b : blockid) : bool :=
+  (bytes_eqb (bid_hash a) (bid_hash b) && psheader_eqb (bid_parts a) (bid_parts b))%bool.
+
+(** time.Time comparison of two instants given as (seconds, nanoseconds in 0..999999999) *)
+Definition time_eqb (a b : timestamp) : bool := (Z.eqb (t_secs a) (t_secs b) && Z.eqb (t_nanos a) (t_nanos b))%bool.
+Definition time_ltb (a b : timestamp) : bool :=
+  (Z.ltb (t_secs a) (t_secs b) || (Z.eqb (t_secs a) (t_secs b) && Z.ltb (t_nanos a) (t_nanos b)))%bool.
+
+(** uint64 successor / predecessor *)
+Definition u64_succ (n : N) : N := (n + 1) mod two64N.
+Definition u64_pred (n : N) : N := (n + two64N - 1) mod two64N.
+
+Section Validate.
+  Variable H : bytes -> bytes.
+  Variable K : bytes -> bytes.
+  Variable TxRoot : list bytes -> bytes.
+
+  (** [ValidatorSet.VerifyCommit(chainID, blockID, height, commit)] up to its signature loop *)
+  Definition verify_commit (size : N) (bid : blockid) (height : N) (sigs_ok : bool) (c : commit) : vc_class :=
+    match commit_validate c with
+    | VbOk =>
+      if negb (N.eqb size (N.of_nat (length (c_sigs c)))) then VcSize
+      else if negb (N.eqb height (c_height c)) then VcHeight
+      else if negb (blockid_eqb bid (c_bid c)) then VcBlockID
+      else if negb sigs_ok then VcSigs
+      else VcOk
+    | e => VcBasic e
+    end.
+
+  (** [validateBlock(evidencePool, store, state, block)] *)
+  Definition validate_block (st : vstate) (x : vext) (b : block) : vs_class :=
+    let h := b_header b in
+    match validate_basic H K TxRoot b with
+    | VbOk =>
+      if negb (N.eqb (h_height h) (u64_succ (st_last_height st))) then VsHeight
+      else if (N.eqb (st_last_height st) 0 && negb (N.eqb (h_height h) (st_initial st)))%bool then VsHeight
+      else if negb (blockid_eqb (h_last h) (st_last_bid st)) then VsLastBlockID
+      else if negb (bytes_eqb (h_app h) (st_app st)) then VsAppHash
+      else if negb (bytes_eqb (h_valhash h) (st_valhash st)) then VsValHash
+      else if negb (bytes_eqb (h_nextval h) (st_nextvalhash st)) then VsNextValHash
+      else
+        match b_last b with
+        | None => VsNilLastCommit
+        | Some c =>
+          let cm :=
+            if N.eqb (h_height h) (st_initial st) then
+              match c_sigs c with [] => VsOk | _ => VsInitialSigs end
+            else
+              match verify_commit (st_lastvals_size st) (st_last_bid st) (u64_pred (h_height h)) (x_sigs_ok x) c with
+              | VcOk => VsOk
+              | e => VsCommit e
+              end in
+          match cm with
+          | VsOk =>
+            let tm :=
+              if st_initial st <? h_height h then
+                if negb (time_ltb (st_last_time st) (h_time h)) then VsTimeNotAfter
+                else if negb (time_eqb (h_time h) (x_median x)) then VsTimeMedian
+                else VsOk
+              else if N.eqb (h_height h) (st_initial st) then
+                if negb (time_eqb (h_time h) (st_last_time st)) then VsTimeGenesis else VsOk
+              else VsBelowInitial in
+            match tm with
+            | VsOk =>
+              if Z.ltb (st_max_evidence st) (Z.of_nat (length (b_evs b))) then VsEvidenceOverflow
+              else if negb (x_proposer_known x) then VsProposer
+              else if negb (x_evpool_ok x) then VsEvidencePool
+              else VsOk
+            | e => e
+            end
+          | e => e
+          end
+        end
+    | e => VsBasic e
+    end.
+End Validate.
+
+(** [Proposal.ValidateBasic]'s bound on the part count of the proposed block id *)
+Definition proposal_parts_ok (total : N) : bool := total <=? max_block_parts_count.
+
+(* ====================================================================== the block store *)
+
+(** kai/rawdb: the keys under which [WriteBlock] files a block (schema.go, transcribed: prefix bytes,
+    8-byte big-endian height, 4-byte big-endian part index) and the key/value store itself as a finite
+    map.  The stored values are opaque here ([V]): what is modelled is WHERE things are put and found
+    again — [WriteBlock], [ReadBlockMeta], [ReadBlockPart]/[ReadBlock]'s part loop, [ReadCommit],
+    [ReadSeenCommit], [ReadCanonicalHash], [ReadHeaderHeight]. *)
+
+(** big-endian encoding of the low [n] bytes of [v] (binary.BigEndian.PutUint64 / PutUint32) *)
+Fixpoint be (n : nat) (v : N) : bytes :=
+  match n with
+  | O => []
+  | S n' => be n' (v / 256) ++ [v mod 256]
+  end.
+
+Definition key_meta (h : N) : bytes := 109 :: be 8 h.                     (* "m" + height *)
+Definition key_part (h i : N) : bytes := 112 :: be 8 h ++ be 4 i.         (* "p" + height + index *)
+Definition key_commit (h : N) : bytes := 99 :: be 8 h.                    (* "c" + height *)
+Definition key_seen (h : N) : bytes := 115 :: 109 :: be 8 h.              (* "sm" + height *)
+Definition key_canon (h : N) : bytes := 104 :: be 8 h ++ [110].           (* "h" + height + "n" *)
+Definition key_height (hash : bytes) : bytes := 72 :: hash.               (* "H" + hash *)
+
+Section Store.
+  Variable V : Type.
+
+  Definition db := list (bytes * V).
+
+  Fixpoint db_get (d : db) (k : bytes) : option V :=
+    match d with
+    | [] => None
+    | (k', v) :: d' => if bytes_eqb k' k then Some v else db_get d' k
+    end.
+
+  Definition db_put (d : db) (k : bytes) (v : V) : db :=
+    (k, v) :: filter (fun e => negb (bytes_eqb (fst e) k)) d.
+
+  Fixpoint put_parts (d : db) (h : N) (i : N) (vs : list V) : db :=
+    match vs with
+    | [] => d
+    | v :: vs' => put_parts (db_put d (key_part h i) v) h (i + 1) vs'
+    end.
+
+  (** [WriteBlock(db, block, blockParts, seenCommit)]: meta, every part, the block's last commit under
+      height-1 (uint64), the seen commit, hash -> height, height -> hash *)
+  Definition write_block (d : db) (h : N) (hash : bytes) (vmeta : V) (vparts : list V) (vcommit vseen : V)
+             (vheight vhash : V) : db :=
+    let d1 := db_put d (key_meta h) vmeta in
+    let d2 := put_parts d1 h 0 vparts in
+    let d3 := db_put d2 (key_commit (u64_pred h)) vcommit in
+    let d4 := db_put d3 (key_seen h) vseen in
+    let d5 := db_put d4 (key_height hash) vheight in
+    db_put d5 (key_canon h) vhash.
+
+  (** the part loop of [ReadBlock]: parts 0 .. total-1 of the height; [None] = a part is missing (the
+      Go code dereferences the nil part) *)
+  Definition read_parts (d : db) (h : N) (total : nat) : option (list V) :=
+    all_some (map (fun i => db_get d (key_part h (N.of_nat i))) (seq 0 total)).
+End Store.
